@@ -176,5 +176,27 @@ class C18(Prop):
     def nontrivial(self, case):
         return False   # cases are recorded per cut, inside end()
 
+    # fixed scenarios: the very first LRU of the index is a one-stem page of 75 / 149 / 223 / 300 bytes (its head is the root
+    # block, reachable by every traversal even before anything points to it), followed by a sibling and a link; every cut
+    def extra_checks(self, ctx, tier, seed, shard, nshards):
+        from ..core import Case
+        from ..ops import Config
+        lens = [75, 149, 223, 300]
+        for j, n in enumerate(lens):
+            if j % nshards != shard % len(lens) or shard >= len(lens):
+                continue
+            for crawled in (False, True):
+                case = Case(self, ctx, Config(backend="file", default_rule="domain"), None)
+                try:
+                    first = b"r" * (n - 1) + b"|"
+                    case.step(("page", first, crawled))
+                    case.step(("page", b"q" * 80 + b"|", True))
+                    case.step(("links", [(first, first + b"c|"), (b"zz|", first)]))
+                    case.finish(record=True)        # runs end(): every cut of the recorded write log
+                    ctx.extra["first_lru_scenarios"] += 1
+                finally:
+                    if not case.finished:
+                        case.abort()
+
 
 PROP = C18()
